@@ -179,13 +179,13 @@ def _noise(T, *rates):
 def _confirmed(res_at, tol):
     """step halving: a residual counts only if it does not shrink like a truncation error"""
     r1, s1 = res_at(1.0)
-    if abs(r1) <= tol * s1:
+    if not math.isfinite(r1) or abs(r1) <= tol * s1:
         return None
     r2, s2 = res_at(0.5)
-    if abs(r2) <= tol * s2:
+    if not math.isfinite(r2) or abs(r2) <= tol * s2:
         return None
     r3, s3 = res_at(0.25)
-    if abs(r3) <= tol * s3 or abs(r3) < 0.45 * abs(r2) < 0.45 * 0.45 * abs(r1):
+    if not math.isfinite(r3) or abs(r3) <= tol * s3 or abs(r3) < 0.45 * abs(r2) < 0.45 * 0.45 * abs(r1):
         return None
     return r3, s3
 
@@ -238,8 +238,16 @@ def _bc_values(cls, p, t):
 
 
 def _gen_rod_bc(rng):
-    cls, p, nm = rod_cases(rng, robin_share=0.25)
+    cls, p, nm = rod_cases(rng, robin_share=0.0)
     return dict(cls=cls, name=nm, params=p, t=rng.uniform(0.02, 0.5) * p['L'] ** 2 / p['kappa'])
+
+
+def _gen_robin_bc(rng):
+    if rng.random() < 0.1:                                 # parameters of test_heat_rod1d_regression8
+        p = dict(alpha1=1.0, beta1=-1.0, gamma1=1.2, alpha2=1.0, beta2=2.0, gamma2=2.3, L=2.0, Nsum=20, kappa=1.0, TL=3.0, TR=3.0)
+    else:
+        p = robin_params(rng)
+    return dict(cls=ROD, name='Rod1D', params=p, t=rng.uniform(0.02, 0.5) * p['L'] ** 2 / p['kappa'])
 
 
 def _chk_rod_bc(c):
@@ -265,6 +273,7 @@ def _chk_rod_bc(c):
 
 
 rod_boundary = O.make(_gen_rod_bc, _chk_rod_bc, 'c14.rod_boundary')
+robin_boundary = O.make(_gen_robin_bc, _chk_rod_bc, 'c14.robin_boundary')
 
 
 def _static(q, x):
@@ -318,11 +327,14 @@ def _chk_large_t(c):
 rod_large_t = O.make(_gen_large_t, _chk_large_t, 'c14.rod_large_t')
 
 
+def _gen_robin_initial(rng):
+    p = robin_params(rng, N=40)
+    return dict(cls=ROD, name='Rod1D', params=p, x=rng.uniform(0.25, 0.75) * p['L'])
+
+
 def _gen_initial(rng):
     u = rng.random()
-    if u < 0.15:
-        cls, p, nm = ROD, robin_params(rng, N=40), 'Rod1D'
-    elif u < 0.7:
+    if u < 0.7:
         cls, p, nm = ROD, rod_params(rng, rng.choice([1, 2, 3, 4]), N=40), 'Rod1D'
     else:
         nm = rng.choice(sorted(SANDWICH))
@@ -357,6 +369,7 @@ def _chk_initial(c):
 
 
 initial_limit = O.make(_gen_initial, _chk_initial, 'c14.initial_limit')
+robin_initial = O.make(_gen_robin_initial, _chk_initial, 'c14.robin_initial')
 
 
 def _gen_robin_nan(rng):
@@ -532,6 +545,27 @@ def _chk_rect_sides(c):
 rect_sides = O.make(_gen_rect_sides, _chk_rect_sides, 'c14.rect_sides')
 
 
+def _gen_rect_initial(rng):
+    p = rect_params(rng, N=20)
+    return dict(params=p, x=rng.uniform(0.2, 0.8) * p['a'], y=rng.uniform(0.1, 0.65) * p['b'])
+
+
+def _chk_rect_initial(c):
+    """t -> 0+ at increasing Nsum: the interior temperature returns to the initial value 0"""
+    p = dict(c['params'])
+    t = 1e-3 * min(p['a'], p['b']) ** 2 / p['kappa']
+    errs = []
+    for N in (20, 40, 80):
+        p['Nsum'] = N
+        errs.append(abs(T2(RECT, p, [(c['x'], c['y'])], t)[0]))
+    if errs[2] > 1e-6 * p['Ttop'] and not (errs[2] < 0.05 * errs[1] < 0.05 * errs[0]):
+        return dict(site='Rectangle:initial', detail='x=%r y=%r t=%r |T| = %r %r %r at Nsum = 20, 40, 80' % (c['x'], c['y'], t, *errs))
+    return None
+
+
+rect_initial = O.make(_gen_rect_initial, _chk_rect_initial, 'c14.rect_initial')
+
+
 # --------------------------------------------------------------------------
 # C14 oracles: Hutchens 2, cylindrical sandwich
 # --------------------------------------------------------------------------
@@ -699,17 +733,23 @@ bc3_vs_bc4 = O.make(_gen_mirror, _chk_mirror, 'c07.bc3_vs_bc4')
 # C08 oracle: change of units on the public calls
 # --------------------------------------------------------------------------
 
+def _scales(rng):
+    return dict(l=rng.uniform(0.2, 5.0), tau=rng.uniform(0.2, 5.0), th=rng.uniform(0.2, 5.0))
+
+
 def _gen_units(rng):
-    u = rng.random()
-    sc = dict(l=rng.uniform(0.2, 5.0), tau=rng.uniform(0.2, 5.0), th=rng.uniform(0.2, 5.0))
-    if u < 0.2:
-        return dict(kind='robin', params=robin_params(rng, N=8), scale=sc)
-    if u < 0.6:
-        return dict(kind='rod', params=rod_params(rng, rng.choice([1, 2, 3, 4])), scale=sc)
-    if u < 0.8:
-        nm = rng.choice(sorted(SANDWICH))
-        return dict(kind=nm, params=sandwich_params(rng, nm), scale=sc)
-    return dict(kind='h1', params=h1_params(rng), scale=sc, M=rng.uniform(0.2, 5.0))
+    if rng.random() < 0.6:
+        return dict(kind='rod', params=rod_params(rng, rng.choice([1, 2, 3, 4])), scale=_scales(rng))
+    nm = rng.choice(sorted(SANDWICH))
+    return dict(kind=nm, params=sandwich_params(rng, nm), scale=_scales(rng))
+
+
+def _gen_units_h1(rng):
+    return dict(kind='h1', params=h1_params(rng), scale=_scales(rng), M=rng.uniform(0.2, 5.0))
+
+
+def _gen_units_robin(rng):
+    return dict(kind='robin', params=robin_params(rng, N=8), scale=_scales(rng))
 
 
 def _chk_units(c):
@@ -756,6 +796,8 @@ def _chk_units(c):
 
 
 units = O.make(_gen_units, _chk_units, 'c08.heat_units')
+units_h1 = O.make(_gen_units_h1, _chk_units, 'c08.heat_units_h1')
+units_robin = O.make(_gen_units_robin, _chk_units, 'c08.heat_units_robin')
 
 
 # --------------------------------------------------------------------------
